@@ -172,6 +172,21 @@ def vo_up_to_date(rel):
     return os.path.exists(vo) and os.path.getmtime(vo) >= os.path.getmtime(v)
 
 
+def registered_targets():
+    """Statement files and checker files of the checks listed in MANIFEST.json."""
+    import importlib
+    import json
+    with open(os.path.join(VERIF, 'MANIFEST.json'), encoding='utf-8') as f:
+        man = json.load(f)
+    targets = []
+    for c in man.get('checks', []):
+        mod = importlib.import_module('harness.props.' + c['property_id'].lower())
+        for t in [mod.PROPS_FILE[:-2] + '.vo'] + list(getattr(mod, 'EXTRA_TARGETS', ())):
+            if t not in targets:
+                targets.append(t)
+    return targets
+
+
 def main():
     import argparse
     ap = argparse.ArgumentParser()
@@ -184,11 +199,18 @@ def main():
     hits = forbidden_scan()
     for h in hits:
         print('forbidden construct: %s:%d: %s' % h)
-    ok, log = make(args.jobs)
+    # what the registered checks need must build; files of checks still under construction are
+    # built too (so that they are warm) but a failure there does not fail the setup
+    targets = registered_targets()
+    ok, log = make(args.jobs, targets=targets)
     if not ok:
         print(log)
         print('BUILD FAILED')
         sys.exit(1)
+    ok_all, log_all = make(args.jobs, targets=['-k', 'all'])
+    if not ok_all:
+        errs = [l for l in log_all.split('\n') if l.startswith('File "') or 'Error' in l]
+        print('note: files outside the registered checks do not build yet:\n  ' + '\n  '.join(errs[:20]))
     print('build ok: %d files in %.1fs' % (len(source_files()), time.time() - t0))
     sys.exit(1 if hits else 0)
 
